@@ -337,6 +337,64 @@ func cmdCheck(args []string) {
 				}
 				return true
 			}, budget)
+			if *writeBaseline {
+				// claim only obligations that are also discharged with a third of the
+				// budget (slow proofs are the unstable ones, DESIGN §2.6)
+				conf := *solver
+				conf.quickMs = solver.quickMs / 3
+				if !budget {
+					conf.quickMs = 400
+				}
+				conf.fastOnly = !budget
+				conf.perSolver = map[string]int{}
+				conf.mu = &sync.Mutex{}
+				var wg2 sync.WaitGroup
+				for _, v := range vs {
+					if v.Obl.Cover || v.Status != "unsat" || res.Ex == nil {
+						continue
+					}
+					wg2.Add(1)
+					go func(v *Verdict) {
+						defer wg2.Done()
+						ex2 := res.Ex
+						if strings.HasSuffix(v.Solver, "[int]") || strings.HasSuffix(v.Solver, "[bv]") {
+							return // proved in the other encoding: keep (already slow path); marked below
+						}
+						v2 := conf.solve(ex2, v.Obl)
+						if v2.Status != "unsat" {
+							v.Status = "unstable"
+							v.Solver = "discharged only with the full budget"
+						}
+					}(v)
+				}
+				wg2.Wait()
+			} else if !thorough {
+				// a claimed obligation that is not discharged is retried once with four
+				// times the budget and every stage before it is reported
+				pat := *solver
+				pat.quickMs = solver.quickMs * 4
+				pat.fastOnly = false
+				pat.perSolver = map[string]int{}
+				pat.mu = &sync.Mutex{}
+				var wg2 sync.WaitGroup
+				for _, v := range vs {
+					if v.Obl.Cover || v.Status == "unsat" || v.Status == "sat" || res.Ex == nil {
+						continue
+					}
+					if _, isClaimed := claimed[v.Obl.Name]; !isClaimed {
+						continue
+					}
+					wg2.Add(1)
+					go func(v *Verdict) {
+						defer wg2.Done()
+						v2 := pat.solve(res.Ex, v.Obl)
+						if v2.Status == "unsat" {
+							v.Status, v.Solver = "unsat", v2.Solver+"(retry)"
+						}
+					}(v)
+				}
+				wg2.Wait()
+			}
 			for _, o := range skippedUnd {
 				vs = append(vs, &Verdict{Obl: o, Status: "not-attempted(undecided-in-baseline)", Solver: "-"})
 			}
